@@ -497,6 +497,55 @@ Close ==
 Finish == /\ ~fin /\ Len(cstack) = 1 /\ AtEnd(Top) /\ (~Growing \/ Top.unreach)
           /\ Emit(<<I("end", "", "")>>) /\ fin' = TRUE /\ UNCHANGED <<vstack, cstack, bad>>
 
+(* Self-contained snippets about rules the signature table does not express.  Each entry names the rule, an ill-typed byte
+   sequence (bad) and its well-typed twin (ok) that differs only in the point the rule is about; both leave the operand stack
+   as it was.  The twin is emitted in valid bodies now and then (it must be accepted and run), the bad form is one of
+   MutateInvalid's choices (it must be rejected): a twin that is rejected shows a wrong encoding here, not in wazero. *)
+Raw(bytes, note) == I("raw", bytes, note)
+V0 == <<253, 12, 0, 0, 0, 0, 0, 0, 0, 0, 0, 0, 0, 0, 0, 0, 0, 0>>                          \* v128.const 0
+Sn(why, illTyped, twin) == [why |-> why, bad |-> illTyped, ok |-> twin]
+Snippets == {
+  Sn("alignment above natural", <<Raw(<<65, 0, 40, 3, 0, 26>>, "i32.const 0; i32.load align=8; drop")>>,
+                                <<Raw(<<65, 0, 40, 2, 0, 26>>, "i32.const 0; i32.load align=4; drop")>>),
+  Sn("atomic alignment not natural", <<Raw(<<65, 0, 254, 16, 1, 0, 26>>, "i32.const 0; i32.atomic.load align=2; drop")>>,
+                                     <<Raw(<<65, 0, 254, 16, 2, 0, 26>>, "i32.const 0; i32.atomic.load align=4; drop")>>),
+  Sn("concrete operand of the wrong type in dead code", <<Raw(<<2, 64, 12, 0, 66, 1, 69, 26, 11>>, "block; br 0; i64.const 1; i32.eqz; drop; end")>>,
+                                                        <<Raw(<<2, 64, 12, 0, 65, 1, 69, 26, 11>>, "block; br 0; i32.const 1; i32.eqz; drop; end")>>),
+  Sn("br_table labels of different types", <<Raw(<<2, 127, 2, 64, 65, 0, 65, 0, 14, 1, 0, 1, 11, 65, 1, 11, 26>>, "block(i32); block; i32.const 0; i32.const 0; br_table 0 1; end; i32.const 1; end; drop")>>,
+                                           <<Raw(<<2, 127, 2, 127, 65, 0, 65, 0, 14, 1, 0, 1, 11, 11, 26>>, "block(i32); block(i32); i32.const 0; i32.const 0; br_table 0 1; end; end; drop")>>),
+  Sn("select on operands of different types", <<Raw(<<65, 1, 66, 1, 65, 0, 27, 26>>, "i32.const 1; i64.const 1; i32.const 0; select; drop")>>,
+                                              <<Raw(<<66, 1, 66, 1, 65, 0, 27, 26>>, "i64.const 1; i64.const 1; i32.const 0; select; drop")>>),
+  Sn("untyped select on references", <<Raw(<<208, 112, 208, 112, 65, 0, 27, 26>>, "ref.null func x2; i32.const 0; select; drop")>>,
+                                     <<Raw(<<208, 112, 208, 112, 65, 0, 28, 1, 112, 26>>, "ref.null func x2; i32.const 0; select (result funcref); drop")>>),
+  Sn("typed select with another type", <<Raw(<<65, 1, 65, 2, 65, 0, 28, 1, 126, 26>>, "i32 i32 i32; select (result i64); drop")>>,
+                                       <<Raw(<<65, 1, 65, 2, 65, 0, 28, 1, 127, 26>>, "i32 i32 i32; select (result i32); drop")>>),
+  Sn("else arm of another type", <<Raw(<<65, 0, 4, 127, 65, 1, 5, 67, 0, 0, 128, 63, 11, 26>>, "i32.const 0; if(i32); i32.const 1; else; f32.const 1; end; drop")>>,
+                                 <<Raw(<<65, 0, 4, 127, 65, 1, 5, 65, 2, 11, 26>>, "i32.const 0; if(i32); i32.const 1; else; i32.const 2; end; drop")>>),
+  Sn("block result of another type", <<Raw(<<2, 127, 67, 0, 0, 128, 63, 11, 26>>, "block(i32); f32.const 1; end; drop")>>,
+                                     <<Raw(<<2, 125, 67, 0, 0, 128, 63, 11, 26>>, "block(f32); f32.const 1; end; drop")>>),
+  Sn("lane index out of range", <<Raw(V0 \o <<253, 21, 16, 26>>, "v128.const; i8x16.extract_lane_s 16; drop")>>,
+                                <<Raw(V0 \o <<253, 21, 15, 26>>, "v128.const; i8x16.extract_lane_s 15; drop")>>),
+  Sn("shuffle lane out of range", <<Raw(V0 \o V0 \o <<253, 13, 32, 0, 0, 0, 0, 0, 0, 0, 0, 0, 0, 0, 0, 0, 0, 0, 26>>, "v128.const x2; i8x16.shuffle 32 0..; drop")>>,
+                                  <<Raw(V0 \o V0 \o <<253, 13, 31, 0, 0, 0, 0, 0, 0, 0, 0, 0, 0, 0, 0, 0, 0, 0, 26>>, "v128.const x2; i8x16.shuffle 31 0..; drop")>>),
+  Sn("load lane index out of range", <<Raw(<<65, 0>> \o V0 \o <<253, 86, 2, 0, 4, 26>>, "i32.const 0; v128.const; v128.load32_lane lane 4; drop")>>,
+                                     <<Raw(<<65, 0>> \o V0 \o <<253, 86, 2, 0, 3, 26>>, "i32.const 0; v128.const; v128.load32_lane lane 3; drop")>>),
+  Sn("funcref stored in an externref table", <<Raw(<<65, 0, 208, 112, 38, 2>>, "i32.const 0; ref.null func; table.set 2")>>,
+                                             <<Raw(<<65, 0, 208, 111, 38, 2>>, "i32.const 0; ref.null extern; table.set 2")>>),
+  Sn("memory index not zero", <<Raw(<<63, 1, 26>>, "memory.size 1; drop")>>, <<Raw(<<63, 0, 26>>, "memory.size 0; drop")>>),
+  Sn("ref.is_null on a number", <<Raw(<<65, 0, 209, 26>>, "i32.const 0; ref.is_null; drop")>>, <<Raw(<<208, 111, 209, 26>>, "ref.null extern; ref.is_null; drop")>>),
+  Sn("if on a condition that is not i32", <<Raw(<<66, 1, 4, 64, 11>>, "i64.const 1; if; end")>>, <<Raw(<<65, 1, 4, 64, 11>>, "i32.const 1; if; end")>>),
+  Sn("br_if without the label's operand", <<Raw(<<2, 127, 65, 0, 13, 0, 65, 1, 11, 26>>, "block(i32); i32.const 0; br_if 0; i32.const 1; end; drop")>>,
+                                          <<Raw(<<2, 127, 65, 7, 65, 0, 13, 0, 11, 26>>, "block(i32); i32.const 7; i32.const 0; br_if 0; end; drop")>>),
+  Sn("label out of range in dead code", <<Raw(<<2, 64, 12, 0, 12, 99, 11>>, "block; br 0; br 99; end")>>, <<Raw(<<2, 64, 12, 0, 12, 0, 11>>, "block; br 0; br 0; end")>>),
+  Sn("else without if", <<Raw(<<2, 64, 5, 11>>, "block; else; end")>>, <<Raw(<<65, 0, 4, 64, 5, 11>>, "i32.const 0; if; else; end")>>),
+  Sn("local.tee of another type", <<I("i64.const", 1, ""), I("local.tee", TmpOf("i32"), ""), I("drop", "", "")>>,
+                                  <<I("i64.const", 1, ""), I("local.tee", TmpOf("i64"), ""), I("drop", "", "")>>),
+  Sn("call_indirect through an externref table", <<Raw(<<2, 64, 12, 0, 65, 0, 66, 0, 65, 0, 17, 0, 2, 26, 11>>, "block; br 0; i32.const 0; i64.const 0; i32.const 0; call_indirect (type 0 = [i32 i64]->[i64]) table 2; drop; end")>>,
+                                                 <<Raw(<<2, 64, 12, 0, 65, 0, 66, 0, 65, 0, 17, 0, 0, 26, 11>>, "the same through table 0 (never executed)")>>)}
+ValidSnippet == /\ Live /\ Growing /\ Len(code) % 7 = 2
+                /\ \E sn \in Snippets : Emit(sn.ok)
+                /\ UNCHANGED <<vstack, cstack, bad, fin>>
+
 -----------------------------------------------------------------------------
 (* exactly one ill-typed step; afterwards the walk continues as if nothing had happened *)
 MutateInvalid ==
@@ -521,6 +570,8 @@ MutateInvalid ==
      \/ \* writing an immutable global
         /\ Avail >= 1 /\ vstack[Len(vstack)] = "i32" /\ vstack' = Pop(1)
         /\ Emit(<<I("global.set", "immutable", "")>>) /\ bad' = "immutable global"
+     \/ \* one of the snippets about rules outside the signature table
+        \E sn \in Snippets : vstack' = vstack /\ Emit(sn.bad) /\ bad' = sn.why
      \/ \* an if without else whose block type does not map its parameters to themselves (the false path would leave an i64 for a v128)
         /\ Has("multi") /\ vstack' = vstack /\ bad' = "if without else changes type"
         /\ Emit(<<I("i64.const", 1, ""), I("i32.const", 0, ""), I("if", [p |-> <<"i64">>, r |-> <<"v128">>], ""), I("drop", "", ""),
@@ -533,7 +584,7 @@ MutateInvalid ==
 Step == \/ Plain \/ MemLoad \/ MemStore \/ MemLane \/ LocalGet \/ LocalSet \/ GlobalGet \/ GlobalSet \/ Drop \/ Select \/ Call
         \/ SetAddr \/ MemLoadReg \/ MemStoreReg \/ MemStoreAtom \/ GuardedAccess \/ FusedBin
         \/ MemSize \/ MemGrow \/ Bulk \/ RefProduce \/ RefConsume \/ TableOps \/ BrTable
-        \/ Atomic \/ AtomicAtom \/ Fence \/ TailCall \/ HostCall \/ OpenMulti \/ DeadCode \/ CallWide
+        \/ Atomic \/ AtomicAtom \/ Fence \/ TailCall \/ HostCall \/ OpenMulti \/ DeadCode \/ CallWide \/ ValidSnippet
         \/ OpenBlock \/ OpenLoop \/ OpenIf \/ Else \/ End \/ BrIf \/ Exit \/ Close \/ Finish \/ MutateInvalid
 (* a comparison result is consumed by a conditional most of the time (OpenIf is enabled whenever the guard holds) *)
 Next == IF pend # "" THEN PickRel
